@@ -69,13 +69,79 @@ pub fn count(f: impl Fn(&Event) -> bool) -> usize {
     }
 }
 
-/// Record an event, if recording.
+/// Record an event, if recording.  If a gate (see [add_gate]) is set on this thread and program
+/// point, the calling thread then stays here -- inside whatever critical section it is in --
+/// until the gate's release condition holds.
 pub fn event(what: &'static str, a: u64, b: u64, c: u64) {
-    let mut trace = TRACE.lock().unwrap_or_else(|e| e.into_inner());
-    if let Some(trace) = trace.as_mut() {
-        let tid = TID.with(|t| t.get());
-        trace.push(Event { tid, what, a, b, c });
+    let tid = TID.with(|t| t.get());
+    {
+        let mut trace = TRACE.lock().unwrap_or_else(|e| e.into_inner());
+        if let Some(trace) = trace.as_mut() {
+            trace.push(Event { tid, what, a, b, c });
+        } else {
+            return;
+        }
     }
+    let mut hold: Option<(u64, String, usize)> = None;
+    {
+        let mut gates = GATES.lock().unwrap_or_else(|e| e.into_inner());
+        for g in gates.iter_mut() {
+            if g.tid == tid && g.what == what && !g.fired {
+                g.seen += 1;
+                if g.seen == g.nth {
+                    g.fired = true;
+                    hold = Some((g.rel_tid, g.rel_what.clone(), g.rel_n));
+                }
+            }
+        }
+    }
+    if let Some((rel_tid, rel_what, rel_n)) = hold {
+        let t0 = std::time::Instant::now();
+        while count(|e| e.tid == rel_tid && e.what == rel_what) < rel_n {
+            if t0.elapsed() > std::time::Duration::from_millis(3000) {
+                GATE_TIMEOUTS.fetch_add(1, Ordering::SeqCst);
+                break;
+            }
+            std::thread::sleep(std::time::Duration::from_micros(20));
+        }
+    }
+}
+
+struct Gate {
+    tid: u64,
+    what: String,
+    nth: usize,
+    rel_tid: u64,
+    rel_what: String,
+    rel_n: usize,
+    seen: usize,
+    fired: bool,
+}
+
+static GATES: Mutex<Vec<Gate>> = Mutex::new(Vec::new());
+static GATE_TIMEOUTS: AtomicUsize = AtomicUsize::new(0);
+
+/// Place a schedule: thread `tid` stops at its `nth` event `what` (after recording it) until
+/// thread `rel_tid` has recorded `rel_n` events `rel_what` (or three seconds have passed).
+pub fn add_gate(tid: u64, what: &str, nth: usize, rel_tid: u64, rel_what: &str, rel_n: usize) {
+    GATES.lock().unwrap_or_else(|e| e.into_inner()).push(Gate {
+        tid,
+        what: what.to_string(),
+        nth,
+        rel_tid,
+        rel_what: rel_what.to_string(),
+        rel_n,
+        seen: 0,
+        fired: false,
+    });
+}
+
+/// Remove all gates; returns how many gates fired and how many gave up waiting.
+pub fn clear_gates() -> (usize, usize) {
+    let mut gates = GATES.lock().unwrap_or_else(|e| e.into_inner());
+    let fired = gates.iter().filter(|g| g.fired).count();
+    gates.clear();
+    (fired, GATE_TIMEOUTS.swap(0, Ordering::SeqCst))
 }
 
 /// Make wait lists created from now on have `n` slots instead of MAX_CONCURRENCY (0 = default).
